@@ -16,7 +16,7 @@ SPELL = {
     'function': 'function', 'procedure': 'procedure', 'trigger': 'trigger', 'as': 'as', 'is': 'is', 'declare': 'declare',
     'begin': 'begin', 'end': 'end', 'if': 'if', 'then': 'then', 'else': 'else', 'end if': 'end if', 'while': 'while',
     'loop': 'loop', 'do': 'do', 'for': 'for', 'in': 'in', 'end loop': 'end loop', 'end while': 'end while',
-    'case': 'case', 'when': 'when', 'end case': 'end case', 'hdr-for': 'for', 'returns': 'returns',
+    'case': 'case', 'when': 'when', 'end case': 'end case', 'hdr-for': 'for', 'returns': 'returns', 'go': 'GO',
 }
 
 
@@ -52,6 +52,9 @@ class Ref:
                 add((';', ('TOP', (), 0, 0), True, 0))
             elif self.semi_in_parens and px > 0:
                 add((';', ('PLAIN', stack, px, cx), False, 0))
+            if self.semi_in_parens:
+                # the GO batch separator ends a statement wherever it stands; the next statement starts afresh
+                add(('go', ('TOP', (), 0, 0), True, 0))
             if self.semi_in_parens and px == 0 and not stack:
                 # a stray closing parenthesis is ignored by the reference; whatever it does to the real counter
                 # must not leak into the next statement (stack element 'S' remembers that one was seen, once)
@@ -274,7 +277,7 @@ def explore(ref, real, stop_at_violation=True, max_states=2_000_000, drift=2):
             transitions += 1
             nxt = (rn, xn)
             bad = None
-            if ev == ';':
+            if ev in (';', 'go'):
                 semis += 1
                 real_split = bool(xn[real.attrs.index('consume_ws')])
                 if real_split != splits:
